@@ -56,6 +56,9 @@ def _msgs(gen):
 class _Unregistered:
     message_id = 0x77
 
+    def __repr__(self):
+        return "_Unregistered()"
+
 
 class Scenario(worlds.World):
     def __init__(self, params):
